@@ -25,8 +25,8 @@ def module():
         dict(slug='c', cls_name='HcTask', kind='json', inputs=[dict(ref='a', how='name'), dict(ref='g:b', how='class')],
              registry_pulls=['a', 'b']),
         dict(slug='d', cls_name='HdTask', kind='json', inputs=[dict(ref='a', how='param', default=None)]),
-        # an optional input declared in front of a required one (both InputTaskParameters)
-        dict(slug='e', cls_name='HeTask', kind='json', inputs=[dict(ref='a', how='param', default=None), dict(ref='g:b', how='param')],
+        # an optional input (InputTaskParameter inside Meta.input_tasks) declared in front of a plain required one
+        dict(slug='e', cls_name='HeTask', kind='json', inputs=[dict(ref='a', how='param_in_list', default=None), dict(ref='g:b', how='class')],
              pulls=['a', 'b'], input_kinds={}),
     ]
     mod = gen.make_module(specs, MODULE)
